@@ -367,6 +367,8 @@ def main(argv):
               f'nontrivial={len(acc.nontrivial)} buckets={len(acc.violations)} '
               f'unlisted={nviol} skipped={dict(acc.skipped)} '
               f'wall={time.time() - t0:.1f}s')
+        if nviol:
+            return 1
         if len(acc.nontrivial) < 2 or acc.evaluations < 1:
             print(f'HARNESS-ERROR property={prop}: generator produced '
                   f'{len(acc.nontrivial)} non-trivial cases', file=sys.stderr)
